@@ -2,8 +2,8 @@
 # run every check of a tier sequentially; summary lines to stdout
 tier=${1:-quick}
 cd "$(dirname "$0")/.."
-for i in $(seq -w 1 20); do
-  id=C$i
+ids=${ORDER:-$(for i in $(seq -w 1 20); do echo C$i; done)}
+for id in $ids; do
   s=$(date +%s)
   out=$(./check $id --tier $tier 2>&1); rc=$?
   e=$(date +%s)
